@@ -1,11 +1,11 @@
 // compile: clang++-14 -std=c++17 -O1 -DNDEBUG -I /repo/tooling/internal/cpp/include <this file> -o replay && ./replay
 // (drop -DNDEBUG to see the debug-build assertion)
 // property C16, violation key cc:ReadFixedIntegerSlow:stale-after-short-refill
-// ReadFixedIntegerSlow<ReadFixed1>: load of 1 byte(s) at buffer offset 0 lies outside [data, buffer_end_ptr_): stale bytes are decoded after FillBuffer() delivered fewer bytes than the decoder consumes; call chain ReadFixedIntegerFastFromArray < ReadFixedIntegerSlow < ReadFixedInteger < h_ReadFixed1
+// ReadFixedIntegerSlow (entry point ReadFixed1): load of 1 byte(s) at buffer offset 0 lies outside [data, buffer_end_ptr_): stale bytes are decoded after FillBuffer() delivered fewer bytes than the decoder consumes, the call returns normally instead of throwing EndOfStreamException and leaves buffer_p
 // spec: throw yardl::binary::EndOfStreamException
-// native observation (release build): ret 0 / drain 000000000000000000000000000000000000000000000000000000
-// debug build, same call twice: exit -6 (assertion)
-#define BAKED_ARGS {"R", "32", "", "ReadFixed1", "drain"}
+// native observation (release build): ret 0 / drain 000000000000000000000000000000000000000000000011100000
+// debug build (no -DNDEBUG) with the operation repeated (args  ReadFixed1 ReadFixed1): exit -6 (assert(buffer_ptr_ <= buffer_end_ptr_) fails in the second call)
+#define BAKED_ARGS {"R", "8", "", "ReadFixed1", "drain"}
 // Native replay driver for coded_stream.h (real, unmodified header; public API only).
 //
 //   replay_kernels R <N> <hex stream bytes> <cmd>...     reader script
